@@ -14,7 +14,15 @@ Inductive op :=
 | OOpenFile (i : nat)       (* R[i] := (open-input-file path): sexp_open_input_file_op + sexp_make_input_port, stream port *)
 | OFileno (i : nat)         (* R[i] := (open path flags): sexp_make_fileno_op on a fresh descriptor *)
 | OPortOn (i f : nat)       (* R[i] := (open-input-file-descriptor R[f]): sexp.c:1857-1873, count++ *)
-| OClose (i : nat).         (* (close-input-port R[i]): sexp_close_port_op = sexp_finalize_port *)
+| OClose (i : nat)          (* (close-port R[i]) / close-input-port / close-output-port: sexp_close_port_op = sexp_finalize_port *)
+| OCloseFd (i : nat)        (* (close-file-descriptor R[i]) on a fileno OBJECT: lib/chibi/filesystem.stub
+                               sexp_close_file_descriptor: sexp_fileno_openp(x) = 0; close(sexp_fileno_fd(x)) *)
+| ODup (i f : nat)          (* R[i] := (duplicate-file-descriptor R[f]): dup(2) + sexp_make_fileno on the new number *)
+| ODupTo (a b : nat).       (* (duplicate-file-descriptor-to R[a] R[b]) and, as pinned, (renumber-file-descriptor R[a] R[b])
+                               [dup2 answers the new number, which the stub's errno result reads as failure, so renumber
+                               never reaches its close]: both filenos open: R[b]'s number now names a duplicate of R[a]'s
+                               file; the file it named before is released by the OS, not by an owner: with descriptors
+                               named by owner instance nothing changes *)
 
 Record state := mkState {
   hp : heap;
@@ -44,6 +52,32 @@ Definition with_slot (st : state) (i : nat) (r : ref) : state :=
 
 Definition roots_of (st : state) : list ref := slots st ++ map Ptr (obs st).
 
+(** sexp_make_fileno_op on a fresh descriptor (open, open-pipe [twice], dup): a new fileno object, open, count 0.
+    (With SEXP_USE_UNIFY_FILENOS_BY_NUMBER an existing OPEN fileno object with the same number would be returned
+    instead; a number handed out by the OS is never the number of an open fileno object while every close of a
+    descriptor goes through its owner — the invariant of FdOnce.v — so the lookup misses.) *)
+Definition open_fileno (i : nat) (st : state) : state :=
+  let '(st1, f) := alloc st (mkObj [] false [] [] false (KFileno true false (nextfd st) 0)) in
+  let st2 := with_slot st1 i (Ptr f) in
+  mkState (hp st2) (slots st2) (obs st2) (oslog st2) (next st2) (nextfd st2 + 1)%Z (fuel st2).
+
+(** is R[i] a fileno object, and is it open and closable?  (None: not a fileno) *)
+Definition fileno_state (st : state) (i : nat) : option bool :=
+  match slot st i with
+  | Ptr f => match PM.find f (objs (hp st)) with
+             | Some fo => match kind fo with
+                          | KFileno true false _ _ => Some true
+                          | KFileno _ _ _ _ => Some false
+                          | _ => None
+                          end
+             | None => None
+             end
+  | Imm => None
+  end.
+
+(** [None] is also returned for a history outside the modelled domain: an operation on the NUMBER of a fileno object
+    that no longer owns it (closing by hand a fileno that is already closed; dup / dup2 of a closed fileno): the number
+    may by then belong to somebody else, which a model that names descriptors by owner instance cannot express. *)
 Definition step (o : op) (st : state) : option state :=
   match o with
   | OKey i => let '(st1, a) := alloc st (mkObj [] false [] [] false KPlain) in Some (with_slot st1 i (Ptr a))
@@ -63,10 +97,7 @@ Definition step (o : op) (st : state) : option state :=
       let '(st1, p) := alloc st (mkObj [Imm; Imm; Imm] false [] [] false (KPort true false (Some (nextfd st)))) in
       let st2 := with_slot st1 i (Ptr p) in
       Some (mkState (hp st2) (slots st2) (obs st2) (oslog st2) (next st2) (nextfd st2 + 1)%Z (fuel st2))
-  | OFileno i =>
-      let '(st1, f) := alloc st (mkObj [] false [] [] false (KFileno true false (nextfd st) 0)) in
-      let st2 := with_slot st1 i (Ptr f) in
-      Some (mkState (hp st2) (slots st2) (obs st2) (oslog st2) (next st2) (nextfd st2 + 1)%Z (fuel st2))
+  | OFileno i => Some (open_fileno i st)
   | OPortOn i f =>
       match slot st f with
       | Ptr fa =>
@@ -98,6 +129,31 @@ Definition step (o : op) (st : state) : option state :=
         | None => Some st
         end
       | Imm => Some st
+      end
+  | OCloseFd i =>
+      match fileno_state st i with
+      | Some true =>
+          match slot st i with
+          | Ptr f =>
+            let '(h1, log1) := finalize_fileno (objs (hp st)) (oslog st) f in
+            Some (mkState (mkHeap h1 (order (hp st))) (slots st) (obs st) log1 (next st) (nextfd st) (fuel st))
+          | Imm => Some st
+          end
+      | Some false => None
+      | None => Some st                          (* type error in Scheme: nothing happens *)
+      end
+  | ODup i f =>
+      match fileno_state st f with
+      | Some true => Some (open_fileno i st)
+      | Some false => None
+      | None => Some st
+      end
+  | ODupTo a b =>
+      match fileno_state st a, fileno_state st b with
+      | Some true, Some true => Some st
+      | Some false, _ => None
+      | _, Some false => None
+      | _, _ => Some st
       end
   end.
 
